@@ -57,6 +57,9 @@ func writeStmt(b *strings.Builder, s Stmt) {
 		b.WriteString(strings.Join(s.Names, ", "))
 		b.WriteString(" = ")
 		writeExprs(b, s.Vals)
+	case SetElem:
+		b.WriteString(s.Name + "[" + strconv.Itoa(s.I) + "] = ")
+		writeExpr(b, s.Val)
 	case VarDecl:
 		b.WriteString("var ")
 		b.WriteString(strings.Join(s.Names, ", "))
@@ -254,6 +257,8 @@ func writeExpr(b *strings.Builder, e Expr) {
 		b.WriteString("}")
 	case Var:
 		b.WriteString(e.Name)
+	case Elem:
+		b.WriteString(e.Name + "[" + strconv.Itoa(e.I) + "]")
 	case Member:
 		writeOperand(b, e.X)
 		b.WriteString(".")
